@@ -295,7 +295,11 @@ impl Worker {
                 *self.stats.inconclusive.entry(r).or_insert(0) += 1;
             }
             Verdict::Violated(msg) => {
-                let known = self.prop.known.and_then(|f| f(case, &msg));
+                // the signature predicate may re-run library code: never let it unwind
+                let known = self
+                    .prop
+                    .known
+                    .and_then(|f| catch_unwind(AssertUnwindSafe(|| f(case, &msg))).ok().flatten());
                 self.stats.violations_total += 1;
                 if let Some(k) = known {
                     *self.stats.known_total.entry(k.to_string()).or_insert(0) += 1;
@@ -313,6 +317,13 @@ impl Worker {
                 }
             }
         }
+    }
+
+    /// Record a deterministic sub-run that is not an exhaustive enumeration (corpus, stress).
+    pub fn note_subrun(&mut self, name: &str, space: &str, cases: u64) {
+        self.stats
+            .exhaustive_subruns
+            .push(J::obj().set("name", J::s(name)).set("space", J::s(space)).set("cases", J::u64(cases)).set("exhaustive", J::Bool(false)));
     }
 
     pub fn note_exhaustive(&mut self, name: &str, space: &str, cases: u64) {
